@@ -36,24 +36,26 @@ type pvar struct{ name, typ string }
 type abstr struct{ lean, typ string }
 
 type pureItem struct {
-	name       string // Lean definition name
-	file, fn   string
-	from, to   string           // fragment: source-text prefixes of the first and last statement (same block)
-	params     []pvar           // fragment: free variables; whole function: taken from the signature (+ extra)
-	extra      []pvar           // additional parameters (abstracted environment)
-	results    []string         // fragment: variables returned as a tuple
-	fuel       []string         // Lean Nat expression per loop, in source order
-	abstract   map[string]abstr // source text of an expression -> Lean text and Go type
-	replace    map[string]repl  // source-text prefix of a statement -> Lean text to splice in, and the variables it assigns
-	drop       []string         // source-text prefixes of statements to skip
-	recv       *pvar            // method receiver override
-	dropParams []string
-	seq        map[string][]abstr // source text of a call -> successive values, one per occurrence in source order
+	name         string // Lean definition name
+	file, fn     string
+	from, to     string           // fragment: source-text prefixes of the first and last statement (same block)
+	params       []pvar           // fragment: free variables; whole function: taken from the signature (+ extra)
+	extra        []pvar           // additional parameters (abstracted environment)
+	results      []string         // fragment: variables returned as a tuple
+	fuel         []string         // Lean Nat expression per loop, in source order
+	abstract     map[string]abstr // source text of an expression -> Lean text and Go type
+	replace      map[string]repl  // source-text prefix of a statement -> Lean text to splice in, and the variables it assigns
+	drop         []string         // source-text prefixes of statements to skip
+	recv         *pvar            // method receiver override
+	dropParams   []string
+	extraResults []string           // variables returned in addition to the function's results
+	seq          map[string][]abstr // source text of a call -> successive values, one per occurrence in source order
 }
 
 type repl struct {
-	lean    string
-	assigns []string
+	lean     string
+	assigns  []string
+	declares []pvar // variables the spliced text introduces (name, Go type)
 }
 
 type pureStruct struct{ file, name string }
@@ -76,7 +78,7 @@ var pureItems = []pureItem{
 		params: []pvar{{"readSize", "int32"}, {"blkSize", "int32"}}, results: []string{"readSize"}},
 	{name: "ptr", file: "internal/sender/fileio.go", fn: "ptr",
 		extra:   []pvar{{"file", "[]byte"}},
-		replace: map[string]repl{"for readSize > 0": {"Go.bind (Go.readLoop file ms.window ms.pFdOffset readOffset readSize) fun (w, fdo) =>\nlet ms := { ms with window := w, pFdOffset := fdo };", []string{"ms"}}},
+		replace: map[string]repl{"for readSize > 0": {"Go.bind (Go.readLoop file ms.window ms.pFdOffset readOffset readSize) fun (w, fdo) =>\nlet ms := { ms with window := w, pFdOffset := fdo };", []string{"ms"}, nil}},
 	},
 	// the rolling update of the weak checksum in hashSearch
 	{name: "rollUpdate", file: "internal/sender/match.go", fn: "hashSearch",
@@ -108,7 +110,7 @@ var pureItems = []pureItem{
 		from: "if backup >= ", to: "if backup >= ",
 		params:   []pvar{{"backup", "int64"}, {"blockLength", "int32"}, {"end", "int64"}, {"offset", "int64"}, {"flush", "bool"}},
 		abstract: map[string]abstr{"head.BlockLength": {"blockLength", "int32"}},
-		replace:  map[string]repl{"if err := st.matched(": {"let flush := true;", []string{"flush"}}},
+		replace:  map[string]repl{"if err := st.matched(": {"let flush := true;", []string{"flush"}, nil}},
 		results:  []string{"flush"}},
 	// receiver: where a block reference reads from and how long
 	{name: "refSpan", file: "internal/receiver/receiver.go", fn: "receiveData",
@@ -147,7 +149,7 @@ var pureItems = []pureItem{
 		from: "if rt.IOErrors > 0", to: "if rt.IOErrors > 0",
 		params:   []pvar{{"ioErrors", "int32"}, {"skip", "bool"}},
 		abstract: map[string]abstr{"rt.IOErrors": {"ioErrors", "int32"}},
-		replace:  map[string]repl{"return nil": {"let skip := true;", []string{"skip"}}},
+		replace:  map[string]repl{"return nil": {"let skip := true;", []string{"skip"}, nil}},
 		results:  []string{"skip"}},
 	// what matched() hashes and where the next unmatched run starts (match.go)
 	{name: "matchedSpan", file: "internal/sender/match.go", fn: "matched",
@@ -163,10 +165,30 @@ var pureItems = []pureItem{
 		fuel:     []string{"n.toNat"},
 		abstract: map[string]abstr{"ms.ptr(offset+l, int32(n1))": {"(Go.fileSlice file (offset + l) n1)", "[]byte"}},
 		replace: map[string]repl{
-			"if err := st.Conn.WriteInt32(int32(n1))":  {"let out := out ++ [Go.Out.i32 (Int32.ofInt n1)];", []string{"out"}},
-			"if _, err := st.Conn.Writer.Write(chunk)": {"let out := out ++ [Go.Out.bytes chunk];", []string{"out"}},
-			"return st.Conn.WriteInt32(-(token + 1))":  {"let out := out ++ [Go.Out.i32 (-(token + 1))];", []string{"out"}}},
+			"if err := st.Conn.WriteInt32(int32(n1))":  {"let out := out ++ [Go.Out.i32 (Int32.ofInt n1)];", []string{"out"}, nil},
+			"if _, err := st.Conn.Writer.Write(chunk)": {"let out := out ++ [Go.Out.bytes chunk];", []string{"out"}, nil},
+			"return st.Conn.WriteInt32(-(token + 1))":  {"let out := out ++ [Go.Out.i32 (-(token + 1))];", []string{"out"}, nil}},
 		results: []string{"out"}},
+	// receiver/token.go recvToken: the connection's input is a byte list that is consumed
+	{name: "recvToken", file: "internal/receiver/token.go", fn: "recvToken",
+		dropParams: []string{"rt"}, extra: []pvar{{"inp", "[]byte"}}, extraResults: []string{"inp"},
+		replace: map[string]repl{
+			"token, err = rt.Conn.ReadInt32()":               {"Go.bind (Go.readI32 inp) fun (token, inp) =>", []string{"token", "inp"}, nil},
+			"if _, err := io.ReadFull(rt.Conn.Reader, data)": {"Go.bind (Go.readFull inp (data.length : Int)) fun (data, inp) =>", []string{"data", "inp"}, nil}}},
+	// receiver.go receiveData: the token loop — literals are written as they come, a reference copies a block of the basis
+	{name: "recvLoop", file: "internal/receiver/receiver.go", fn: "receiveData",
+		from: "offset := 0", to: "for {",
+		params: []pvar{{"inp", "[]byte"}, {"basis", "[]byte"}, {"hasBasis", "bool"}, {"checksumCount", "int32"}, {"blockLength", "int32"}, {"remainderLength", "int32"}, {"written", "[]byte"}},
+		fuel:   []string{"inp.length + 1"},
+		abstract: map[string]abstr{"sh.ChecksumCount": {"checksumCount", "int32"}, "sh.BlockLength": {"blockLength", "int32"},
+			"sh.RemainderLength": {"remainderLength", "int32"}},
+		drop: []string{"if rt.Opts.Progress && !rt.Opts.Server"},
+		replace: map[string]repl{
+			"token, data, err := rt.recvToken()":           {"Go.bind (Gen.Pure.recvToken inp) fun (token, data, inp) =>", []string{"inp"}, []pvar{{"token", "int32"}, {"data", "[]byte"}}},
+			"n, err := wr.Write(data)":                     {"let written := written ++ data;\nlet n : Int := (data.length : Int);", []string{"written"}, []pvar{{"n", "int"}}},
+			"if localFile == nil":                          {"Go.bind (if hasBasis then Go.Res.ok () else Go.Res.err) fun _ =>", nil, nil},
+			"if _, err := localFile.ReadAt(data, offset2)": {"Go.bind (Go.readAt basis offset2 (data.length : Int)) fun data =>", []string{"data"}, nil}},
+		results: []string{"written", "inp"}},
 	// wire: multiplex frame header, and its decoding
 	{name: "muxHeader", file: "internal/rsyncwire/wire.go", fn: "WriteMsg",
 		from: "header := uint32(mplexBase+tag)<<24 | uint32(len(p))", to: "header := uint32(mplexBase+tag)<<24 | uint32(len(p))",
@@ -178,12 +200,12 @@ var pureItems = []pureItem{
 	{name: "int64Short", file: "internal/rsyncwire/wire.go", fn: "Conn.WriteInt64",
 		from: "if data <= 0x7FFFFFFF && data >= 0", to: "if data <= 0x7FFFFFFF && data >= 0",
 		params:  []pvar{{"data", "int64"}, {"short", "bool"}},
-		replace: map[string]repl{"return c.WriteInt32(int32(data))": {"let short := true;", []string{"short"}}},
+		replace: map[string]repl{"return c.WriteInt32(int32(data))": {"let short := true;", []string{"short"}, nil}},
 		results: []string{"short"}},
 	{name: "int64ShortBuf", file: "internal/rsyncwire/wire.go", fn: "Buffer.WriteInt64",
 		from: "if data <= 0x7FFFFFFF && data >= 0", to: "if data <= 0x7FFFFFFF && data >= 0",
 		params:  []pvar{{"data", "int64"}, {"short", "bool"}},
-		replace: map[string]repl{"b.WriteInt32(int32(data))": {"let short := true;", []string{"short"}}},
+		replace: map[string]repl{"b.WriteInt32(int32(data))": {"let short := true;", []string{"short"}, nil}},
 		drop:    []string{"return"},
 		results: []string{"short"}},
 	// block layout the generator chooses
@@ -261,6 +283,7 @@ type ptr struct {
 	mutated []string // pointer parameters that are assigned: returned as extra results
 	aux     strings.Builder
 	seqPos  map[string]int
+	loopTup string // non-empty while translating the body of a loop with break/continue: its state tuple
 }
 
 type pureSig struct {
@@ -765,6 +788,9 @@ func (p *ptr) containsReturn(n ast.Node) bool {
 		if _, ok := x.(*ast.ReturnStmt); ok {
 			found = true
 		}
+		if _, ok := x.(*ast.BranchStmt); ok && p.loopTup != "" {
+			found = true
+		}
 		if _, ok := x.(*ast.FuncLit); ok {
 			return false
 		}
@@ -985,6 +1011,9 @@ func (p *ptr) stmts(list []ast.Stmt, k func() string, w *strings.Builder) {
 	for key, rep := range p.it.replace {
 		if strings.HasPrefix(p.r.src(s), key) {
 			w.WriteString(rep.lean + "\n")
+			for _, d := range rep.declares {
+				p.env[d.name] = d.typ
+			}
 			cont()
 			return
 		}
@@ -1153,6 +1182,18 @@ func (p *ptr) stmts(list []ast.Stmt, k func() string, w *strings.Builder) {
 			p.stmts(rest, k, &b)
 			return b.String()
 		}, w)
+	case *ast.BranchStmt:
+		if p.loopTup == "" || v.Label != nil {
+			p.failf("unsupported jump %s", p.r.src(s))
+		}
+		switch v.Tok {
+		case token.BREAK:
+			fmt.Fprintf(w, "Go.Res.ok (%s, false)", p.loopTup)
+		case token.CONTINUE:
+			fmt.Fprintf(w, "Go.Res.ok (%s, true)", p.loopTup)
+		default:
+			p.failf("unsupported jump %s", p.r.src(s))
+		}
 	case *ast.ReturnStmt:
 		w.WriteString(p.ret(v))
 	case *ast.IfStmt:
@@ -1257,6 +1298,12 @@ func (p *ptr) ret(v *ast.ReturnStmt) string {
 	}
 	for _, m := range p.mutated {
 		vals = append(vals, pureIdent(m))
+	}
+	for _, m := range p.it.extraResults {
+		vals = append(vals, pureIdent(m))
+	}
+	if p.loopTup != "" {
+		p.failf("return of a value inside a loop with break/continue")
 	}
 	var b strings.Builder
 	p.flush(bs, &b)
@@ -1366,7 +1413,8 @@ func (p *ptr) forStmt(v *ast.ForStmt, rest []ast.Stmt, k func() string, w *strin
 		return !bad
 	})
 	if bad {
-		p.failf("loop with return/break/continue: %s", strings.SplitN(p.r.src(v), "\n", 2)[0])
+		p.forJump(v, rest, k, w)
+		return
 	}
 	if p.loopNo >= len(p.it.fuel) {
 		p.failf("no fuel configured for loop %d of %s", p.loopNo, p.it.name)
@@ -1430,6 +1478,73 @@ func (p *ptr) forStmt(v *ast.ForStmt, rest []ast.Stmt, k func() string, w *strin
 	a := strings.Join(args, " ")
 	fmt.Fprintf(w, "Go.bind (Go.loop (%s) (%s_cond%d %s) (%s_body%d %s) %s) fun %s =>\n", fuel, p.it.name, idx, a, p.it.name, idx, a, tup, tup)
 	// variables declared by Init go out of scope, the others keep their (possibly updated) values
+	p.restoreEnvKeeping(saved)
+	p.stmts(rest, k, w)
+}
+
+// forJump translates `for cond { … break/continue/return err … }` (no post statement) into
+// `Go.loopB fuel body state`: the body returns the new state and whether to go round again.
+func (p *ptr) forJump(v *ast.ForStmt, rest []ast.Stmt, k func() string, w *strings.Builder) {
+	if v.Post != nil || v.Init != nil {
+		p.failf("loop with jumps and an init/post statement")
+	}
+	if p.loopTup != "" {
+		p.failf("nested loops with jumps")
+	}
+	if p.loopNo >= len(p.it.fuel) {
+		p.failf("no fuel configured for loop %d of %s", p.loopNo, p.it.name)
+	}
+	fuel := p.it.fuel[p.loopNo]
+	p.loopNo++
+	saved := p.saveEnv()
+	var mod []string
+	p.assigned(v.Body.List, map[string]bool{}, &mod)
+	if len(mod) == 0 {
+		p.failf("loop assigns nothing")
+	}
+	tup := tuple(mod)
+	var bs binds
+	cond := ""
+	if v.Cond != nil {
+		cond, _ = p.expr(v.Cond, "bool", &bs)
+		if len(bs) > 0 {
+			p.failf("loop condition with an index or division")
+		}
+	}
+	envLoop := p.saveEnv()
+	p.loopTup = tup
+	var bb strings.Builder
+	if cond != "" {
+		fmt.Fprintf(&bb, "if (!%s) then Go.Res.ok (%s, false) else\n", paren(cond), tup)
+	}
+	p.stmts(v.Body.List, func() string { return fmt.Sprintf("Go.Res.ok (%s, true)", tup) }, &bb)
+	p.loopTup = ""
+	p.env = envLoop
+	var outer []string
+	for n := range envLoop {
+		isState := false
+		for _, m := range mod {
+			if m == n {
+				isState = true
+			}
+		}
+		if !isState {
+			outer = append(outer, n)
+		}
+	}
+	sort.Strings(outer)
+	var ps, args, tys []string
+	for _, n := range outer {
+		ps = append(ps, fmt.Sprintf("(%s : %s)", pureIdent(n), p.leanType(envLoop[n])))
+		args = append(args, pureIdent(n))
+	}
+	for _, m := range mod {
+		tys = append(tys, p.leanType(envLoop[m]))
+	}
+	sty := strings.Join(tys, " × ")
+	idx := p.loopNo - 1
+	fmt.Fprintf(&p.aux, "def %s_body%d %s : %s → Go.Res ((%s) × Bool) := fun %s =>\n%s\n\n", p.it.name, idx, strings.Join(ps, " "), sty, sty, tup, bb.String())
+	fmt.Fprintf(w, "Go.bind (Go.loopB (%s) (%s_body%d %s) %s) fun %s =>\n", fuel, p.it.name, idx, strings.Join(args, " "), tup, tup)
 	p.restoreEnvKeeping(saved)
 	p.stmts(rest, k, w)
 }
@@ -1742,9 +1857,29 @@ func translateItem(r *repo, it *pureItem, structs map[string][]pvar, funcs map[s
 	for _, v := range params {
 		p.env[v.name] = strings.TrimPrefix(v.typ, "*")
 	}
-	p.monadic = p.hasErr || len(it.replace) > 0 && strings.Contains(fmt.Sprint(it.replace), "Go.bind")
+	var namedResults []pvar
+	if fd.Type.Results != nil {
+		for _, f := range fd.Type.Results.List {
+			t := p.goType(f.Type)
+			if t == "error" {
+				p.hasErr = true
+			}
+			if it.from == "" {
+				for _, n := range f.Names {
+					if n.Name != "_" && t != "error" {
+						namedResults = append(namedResults, pvar{n.Name, t})
+						p.env[n.Name] = t
+					}
+				}
+			}
+		}
+	}
+	p.monadic = (it.from == "" && p.hasErr) || len(it.replace) > 0 && strings.Contains(fmt.Sprint(it.replace), "Go.bind")
 	for _, s := range body {
 		if needsMonad(s, p) {
+			p.monadic = true
+		}
+		if it.from != "" && p.containsReturn(s) {
 			p.monadic = true
 		}
 	}
@@ -1762,7 +1897,7 @@ func translateItem(r *repo, it *pureItem, structs map[string][]pvar, funcs map[s
 		}
 	}
 	if it.from != "" {
-		k = func() string { return p.ok(tuple(it.results)) }
+		k = func() string { return p.ok(tuple(append(append([]string{}, it.results...), it.extraResults...))) }
 	} else {
 		k = func() string {
 			if len(p.resTyp) == 0 {
@@ -1775,6 +1910,16 @@ func translateItem(r *repo, it *pureItem, structs map[string][]pvar, funcs map[s
 	var w strings.Builder
 	if len(mutated) > 0 {
 		p.mutated = mutated
+	}
+	for _, nr := range namedResults {
+		zero := "0"
+		switch nr.typ {
+		case "bool":
+			zero = "false"
+		case "[]byte":
+			zero = "[]"
+		}
+		fmt.Fprintf(&w, "let %s : %s := %s;\n", pureIdent(nr.name), p.leanType(nr.typ), zero)
 	}
 	p.stmts(body, k, &w)
 	var ps []string
